@@ -11,11 +11,12 @@ use text_utils::metrics::{
 };
 use text_utils::text::match_words;
 
-const WORDS: [&str; 6] = ["x", "X", "y", "xy", "Y", "zz"];
+// slot 7: "x y" with the blank replaced by a letter (a prediction that merges two words by writing a character)
+const WORDS: [&str; 7] = ["x", "X", "y", "xy", "Y", "zz", "xxy"];
 /// the same shape with non-ASCII letters (case pairs outside ASCII, a letter whose upper case is two letters)
-const WORDS_UNI: [&str; 6] = ["ü", "Ü", "ж", "üж", "Ж", "ßß"];
+const WORDS_UNI: [&str; 7] = ["ü", "Ü", "ж", "üж", "Ж", "ßß", "üüж"];
 /// case pairs whose lower case has another UTF-8 length: U+023A (2 bytes) / U+2C65 (3 bytes), Kelvin sign (3 bytes) / k (1 byte)
-const WORDS_UNI2: [&str; 6] = ["\u{2C65}", "\u{023A}", "k", "\u{2C65}k", "\u{212A}", "ßß"];
+const WORDS_UNI2: [&str; 7] = ["\u{2C65}", "\u{023A}", "k", "\u{2C65}k", "\u{212A}", "ßß", "\u{2C65}\u{2C65}k"];
 const SEPS: [&str; 4] = [" ", "\t", "\n", "  "];
 
 struct WInt {
